@@ -7,7 +7,7 @@
 (* Render(c) is the line; R: the value read is exactly VALUE (Denotes).             *)
 (* M (Read): the implementation's reader - first occurrence of the tag, at least    *)
 (* one blank, the SHORTEST value such that the rest of the line is a run of known   *)
-(* terminators followed by blanks,                                                 *)
+(* terminators, possibly separated by blanks, followed by blanks,                  *)
 (* terminators, strip; then the frame rule: if the value ends with the mirrored     *)
 (* prefix, separated from the text by a blank, that suffix is dropped.  Copyright   *)
 (* notices are read from the tag itself to the end and get the same frame rule.     *)
@@ -21,11 +21,12 @@ TagText == [lic |-> "SPDX-License-Identifier:", con |-> "SPDX-FileContributor:",
             sym |-> "SIGNSIGN", wordsym |-> "Copyright SIGNSIGN"]
 IsCop(kind) == kind \in {"cop", "snip", "word", "wordc", "sym", "wordsym"}
 
-RECURSIVE Cat(_)
-Cat(ss) == IF ss = <<>> THEN "" ELSE ss[1] \o Cat(Tail(ss))
+RECURSIVE Cat(_, _)
+Cat(ss, gap) == IF ss = <<>> THEN "" ELSE IF Len(ss) = 1 THEN ss[1] ELSE ss[1] \o gap \o Cat(Tail(ss), gap)
+(* (tgap: what stands between two terminators - nothing, or a blank as in a comment nested in another: "... */ -->") *)
 Render(c) ==
    c.indent \o c.p \o c.gapL \o TagText[c.tag] \o " " \o c.value \o c.trail
-     \o (IF c.frame THEN c.gapR \o Reverse(Strip(c.p)) ELSE "") \o Cat(c.terms) \o c.blanks
+     \o (IF c.frame THEN c.gapR \o Reverse(Strip(c.p)) ELSE "") \o Cat(c.terms, c.tgap) \o c.blanks
 
 (* R *)
 Denotes(c) == IF IsCop(c.tag) THEN TagText[c.tag] \o " " \o c.value ELSE c.value
@@ -33,7 +34,7 @@ Denotes(c) == IF IsCop(c.tag) THEN TagText[c.tag] \o " " \o c.value ELSE c.value
 (* M *)
 RECURSIVE IsTermRun(_)
 IsTermRun(s) == Strip(s) = ""                                  \* trailing blanks may follow the terminators
-                \/ \E t \in Terminators : StartsWith(s, t) /\ IsTermRun(DropFirst(s, Len(t)))
+                \/ \E t \in Terminators : StartsWith(LStrip(s), t) /\ IsTermRun(DropFirst(LStrip(s), Len(t)))    \* blanks may separate them
 ShortestBeforeTerms(s) ==        \* lazy (.*?) followed by (?:t1|t2|...)*$
    LET cut == {n \in 0..Len(s) : IsTermRun(DropFirst(s, n))}
    IN  SubSeq(s, 1, CHOOSE n \in cut : \A m \in cut : n <= m)
